@@ -33,6 +33,7 @@ def main():
     ap.add_argument("--keep", action="store_true")
     ap.add_argument("--tests", action="store_true", help="also run the repo's test suite on the patched tree")
     ap.add_argument("--json", default="")
+    ap.add_argument("--record", default="", help="append the outcome to <seeded-dir>/meta.json with this note")
     a = ap.parse_args()
     patch = a.patch
     meta = {}
@@ -90,6 +91,16 @@ def main():
             sh(["git", "-C", "/repo", "worktree", "prune"])
     if a.json:
         json.dump(results, open(a.json, "w"), indent=1)
+    if a.record and os.path.isdir(a.patch):
+        mp = os.path.join(a.patch, "meta.json")
+        meta = json.load(open(mp)) if os.path.exists(mp) else {}
+        hist = meta.setdefault("check_runs", [])
+        head = sh(["git", "-C", ROOT, "rev-parse", "--short", "HEAD"]).stdout.decode().strip()
+        for x in results:
+            hist.append({"cmd": "./check %s %s (VERIF_SEED=%d, tree = /repo HEAD + patch.diff)" % (x["prop"], a.tier, x["seed"]),
+                         "exit": x["exit"], "fired": x["exit"] == 1, "first_line": x["first"], "note": a.record, "verif_commit": head})
+        meta["detected_by"] = sorted({h["cmd"].split()[1] for h in hist if h["fired"]})
+        json.dump(meta, open(mp, "w"), indent=1)
     return 0 if any(x["exit"] == 1 for x in results) else 3
 
 
